@@ -39,13 +39,18 @@ def run(ctx):
         how = p.outcome[0]
         if how == "raise":
             how = "reraise" if p.outcome[1].get("reraised") else "propagate"
-        if how == "fall":
+        subs = [e for e in p.events if e.kind == "SUB"]
+        # a returning path on which the inner parse raised swallowed that failure (whether it falls off the end or returns a None it prepared)
+        if p.returns and any(e.raised for e in subs):
+            how = "swallowed"
+        elif how == "fall":
             how = "swallowed"
         kinds.add(how)
         ctx.ob("C09.R1", fi, t.final == P0(STREAM), "Peek._parse ends at its entry position on exit '%s' (got %s)" % (how, N.show(t.final)), key="exit %s" % how)
-        subs = [e for e in p.events if e.kind == "SUB"]
-        if p.outcome[0] == "return":
+        if how == "return":
             ctx.ob("C09.R1", fi, len(subs) == 1 and p.retval == subs[0]["res"] and subs[0]["stream"] == STREAM, "Peek._parse returns the inner result", key="value")
+        elif how == "swallowed":
+            ctx.ob("C09.R1", fi, p.retval == N.NONE, "Peek._parse returns None when the inner parse failed", key="value swallowed")
     ctx.ob("C09.R1", fi, {"return", "swallowed", "reraise", "propagate"} <= kinds, "all four exits of Peek._parse were analysed (%s)" % sorted(kinds), key="exits covered")
     ctx.floor("C09.R1", 6)
 
